@@ -29,6 +29,7 @@ func (l *recListener) Notify(w *ecs.World, e ecs.EntityEvent) {
 		r.NewRel = s.idNum[*e.NewRelation]
 	}
 	r.Locked = w.IsLocked()
+	r.Held = s.open > 0 // the harness itself holds a query open at delivery time
 	r.Alive = w.Alive(e.Entity)
 	if r.Alive {
 		m := w.Mask(e.Entity)
@@ -134,7 +135,7 @@ func (s *Sess) checkEvents(op *Op, exp []ExpEvent) {
 				return
 			}
 		} else {
-			if r.Locked && s.open == 0 {
+			if r.Locked && !r.Held && s.open == 0 {
 				s.fail("event.locked", "event for %v delivered with the world locked", e)
 				return
 			}
